@@ -201,7 +201,7 @@ impl World {
             return;
         }
         let recipients = self.reachable(from);
-        for (topic, data) in msgs {
+        for (_from, topic, data) in msgs {
             self.chain.push_str(topic);
             self.chain.push_u64(from as u64);
             for &to in &recipients {
